@@ -38,6 +38,9 @@ def main():
         for d in sorted(glob.glob(os.path.join(V, "seeded/*/patch.diff"))):
             meta = json.load(open(os.path.join(os.path.dirname(d), "meta.json")))
             jobs.append(("seed", meta["seed_id"], d, meta.get("detected_by", [])))
+    only = [x for x in os.environ.get("FIXTURES", "").split(",") if x]
+    if only:
+        jobs = [j for j in jobs if j[1] in only]
     with ThreadPoolExecutor(max_workers=8) as ex:
         results = list(ex.map(lambda j: run_fixture(j[2], pids), jobs))
     bad = 0
